@@ -29,6 +29,10 @@ def on_ray(O, D, X, tol_len):
     if t * math.sqrt(dd) <= -tol_len: return ('fail', 'behind-origin', 'hit at t=%.6g behind the ray origin' % t)
     return ('ok', t)
 
+def FMT_NAME():
+    from . import common as _C
+    return _C.FMT.name
+
 def judge(ln):
     if ln.op == 'pl.int':
         tk = Tok(ln.args); c, n = tk.v(), tk.v(); O, D = rd_ray(tk)
@@ -53,7 +57,7 @@ def judge(ln):
         # hit iff the ray direction is inside the cone; the point itself is at "infinity"
         # source lives in world space without transform
         ca = dot(unit(D), P.p['d'])
-        if ca < math.cos(P.p['a'] / 2) - 1e-9: return ('fail', 'outside-cone', 'direction outside the source cone (cos %.12g < %.12g)' % (ca, math.cos(P.p['a'] / 2)))
+        if ca < math.cos(P.p['a'] / 2) - (1e-9 if FMT_NAME() != 'f32' else 1e-6): return ('fail', 'outside-cone', 'direction outside the source cone (cos %.12g < %.12g)' % (ca, math.cos(P.p['a'] / 2)))
         return ('ok', '')
     if not finite(X): return ('fail', 'non-finite-hit', 'hit point is not finite')
     if space == 'local':
